@@ -258,6 +258,8 @@ func runC12(c *eng.Ctx) {
 		c.Check(n >= 2, "absence-exits-found", nil, f, "GetMetricID has its 'namespace unknown' and 'metric unknown' exits", fmt.Sprintf("%d", n))
 	})
 
+	c.Rule("SYMMETRY", "aggregation.fieldAggregator.Aggregate{a partial series is merged into the series of its own aggregate type}", func() { partialMergeByAggType(c) })
+
 	// ---- 3. completion --------------------------------------------------------------------------------------------------------------
 	c.Rule("GUARD", btcT+".tryClose", func() {
 		f := c.Fn(btcT + ".tryClose")
